@@ -421,7 +421,11 @@ def mut_receivers(rng, C, R, nwin, nested=True):
     """mutable receivers: root, ext, view_mut windows (interior, edges, single row/col), nested"""
     out = ["@", "@x"]
     ws = [w for w in valid_windows(C, R)]
-    for w in sample(rng, ws, nwin):
+    # always include the full-height windows that are narrower than the parent (stride > width with many rows)
+    fixed = []
+    if C >= 2 and R >= 1:
+        fixed = [(1, 0, C, R), (0, 0, C - 1, R)] + ([(1, 0, C - 1, R)] if C >= 3 else [])
+    for w in fixed + sample(rng, ws, nwin):
         s = ",".join(map(str, w))
         out.append(f"@v({s})")
         wc, wr = w[2] - w[0], w[3] - w[1]
@@ -456,7 +460,7 @@ def idx_values(dim):
 def gen_C13(tier, seed):
     rng = random.Random(seed)
     b = Builder("C13")
-    maxd = 3 if tier == "quick" else 4
+    maxd = 4 if tier == "quick" else 5
     for (C, R) in shapes(maxd):
         d = uniq(C * R, 100)
         root = f"@ from_vec {C} {R} {fl(d)}"
